@@ -466,6 +466,51 @@ def r3_std(ctx, rid="C19.R3", title=None):
                               "the index is empty or a slice): the scale changes outside `_update_std`, by a factor unrelated to the configured one", construct=f"in-place write through a view of std in {f.qual}")
 
 
+def r8_each_kind_its_own_tuning(ctx):
+    """'by exactly the configured factor ... left the target band': population and individual samplers are built from their *own* settings -
+    `sampler_pop` + `sampler_pop_params` and `sampler_ind` + `sampler_ind_params` - so that the window length, the target band and the
+    adaptive factor configured for one kind are the ones it runs with."""
+    ctx.rule("C19.R8", "population / individual samplers are built with their own sampler name and tuning dictionary", 2)
+    M = "leaspy.algo.algo_with_samplers"
+    for fname, kind in (("_initialize_individual_samplers", "ind"), ("_initialize_population_samplers", "pop")):
+        f = ctx.ix.func(M, f"AlgorithmWithSamplersMixin.{fname}", "C19.R8")
+        ctx.analysed(f)
+        calls = [c for c in ast.walk(f.node) if isinstance(c, ast.Call) and U(c.func).split(".")[-1] == "sampler_factory"]
+        if len(calls) != 1:
+            ctx.unknown("C19.R8", f, f.node, f"{len(calls)} sampler_factory call(s) in {fname} (1 confirmed)", construct=f"{kind}: own tuning")
+            continue
+        c = calls[0]
+
+        def keys_of(e, depth=0):
+            """settings keys read by `e` through self.algo_parameters, following local names (also tuple-unpacked ones)"""
+            out = set()
+            for n in ast.walk(e):
+                if isinstance(n, ast.Subscript) and U(n.value) == "self.algo_parameters" and isinstance(n.slice, ast.Constant):
+                    out.add(n.slice.value)
+                if isinstance(n, ast.Call) and isinstance(n.func, ast.Attribute) and n.func.attr == "get" and U(n.func.value) == "self.algo_parameters" and n.args and isinstance(n.args[0], ast.Constant):
+                    out.add(n.args[0].value)
+                if isinstance(n, ast.Name) and depth < 3:
+                    for st in statements(f.node):
+                        if isinstance(st, ast.Assign) and len(st.targets) == 1:
+                            t = st.targets[0]
+                            if isinstance(t, ast.Name) and t.id == n.id:
+                                out |= keys_of(st.value, depth + 1)
+                            elif isinstance(t, ast.Tuple) and isinstance(st.value, ast.Tuple) and len(t.elts) == len(st.value.elts):
+                                for te, ve in zip(t.elts, st.value.elts):
+                                    if isinstance(te, ast.Name) and te.id == n.id:
+                                        out |= keys_of(ve, depth + 1)
+            return out
+        name_keys = keys_of(c.args[0]) if c.args else set()
+        tune = [k.value for k in c.keywords if k.arg is None]
+        tune_keys = set().union(*[keys_of(v) for v in tune]) if tune else set()
+        tune_keys = {k for k in tune_keys if k.endswith("_params")}
+        ctx.check(name_keys == {f"sampler_{kind}"}, "C19.R8", f, c, f"{kind}: sampler taken from `sampler_{kind}`",
+                  f"the {kind} samplers are chosen from {sorted(name_keys)} instead of `sampler_{kind}`", construct=f"{kind}: own sampler name")
+        ctx.check(tune_keys == {f"sampler_{kind}_params"}, "C19.R8", f, c, f"{kind}: tuning taken from `sampler_{kind}_params`",
+                  f"the {'population' if kind == 'pop' else 'individual'} samplers are tuned with {sorted(tune_keys)} instead of `sampler_{kind}_params`: their proposal scales adapt with another window "
+                  "length, band and factor than the configured ones", construct=f"{kind}: own tuning")
+
+
 def r5_temperature_updated_every_iteration(ctx):
     """'exactly 1 once the annealing iterations are over': the schedule advances by one step per iteration of the algorithm - the update is
     on every path through an iteration (no `continue` / early exit before it)."""
@@ -543,6 +588,7 @@ def rules(ctx):
     r7_annealing_count_single_writer(ctx)
     r4_configuration_reaches_object(ctx)
     r5_temperature_updated_every_iteration(ctx)
+    r8_each_kind_its_own_tuning(ctx)
     # the annealing counts an algorithm derives (annealing.n_iter from its fraction, the plateau length) stay in its own copy of the parameters (same rule as C11.R7)
     from .c11 import r7_deepcopy
     r7_deepcopy(ctx, rid="C19.R6")
